@@ -15,6 +15,7 @@ use serde_json::{json, Value};
 use std::collections::BTreeMap;
 use std::path::Path;
 use std::sync::Arc;
+use versatiles_container::TilesWriterTrait;
 use versatiles_core::types::{TileCompression, TileFormat};
 
 pub fn norm_msg(s: &str) -> String {
@@ -439,6 +440,52 @@ pub fn run(ctx: Arc<Ctx>) {
 	ctx.extra_add("wall_ms_after_families", (ctx.elapsed() * 1000.0) as u64);
 	// 4. PMTiles root/leaf switch: tile counts around the point where the root directory no longer fits into 16 KiB
 	pm_switch_sweep(&ctx, &wpath);
+	// two containers of one name written side by side at the same time (planet.versatiles and planet.pmtiles, as a
+	// build script does with two conversions in parallel), also next to a stray file named planet.tmp: each result is
+	// its own source's tile set
+	{
+		let rt = crate::memsource::runtime(2);
+		let sets: Vec<TileMap> = vec![tilesets::family_dense(5, 3, 3, 12, 12, 700), tilesets::family_full_pyramid(3)];
+		for (si, set) in sets.iter().enumerate() {
+			for stray in [false, true] {
+				let dir = wpath.join(format!("side{si}{}", stray as u8));
+				let _ = std::fs::remove_dir_all(&dir);
+				std::fs::create_dir_all(&dir).unwrap();
+				if stray {
+					std::fs::write(dir.join("planet.tmp"), b"left behind by something else").unwrap();
+				}
+				// different payloads per target, so that a mix-up shows
+				let other: TileMap = set.iter().map(|(k, v)| (*k, v.iter().rev().copied().collect())).collect();
+				let (f, cp) = default_pair(Cont::Versatiles, false);
+				let mut a = MemSource::new("a", set.clone(), f, cp).with_yields(1);
+				let mut b = MemSource::new("b", other.clone(), f, cp).with_yields(1);
+				let (pa, pb) = (dir.join("planet.versatiles"), dir.join("planet.pmtiles"));
+				ctx.eval();
+				let case = json!({"kind": "side by side", "set": si, "stray_tmp_file": stray});
+				let r = catch(|| rt.block_on(async { tokio::join!(versatiles_container::VersaTilesWriter::write_to_path(&mut a, &pa), versatiles_container::PMTilesWriter::write_to_path(&mut b, &pb)) }));
+				match r {
+					Err(p) => ctx.violation(&format!("writing two containers side by side panics at {}", panic_site(&p)), &p, case),
+					Ok((ra, rb)) => {
+						for (cont, res, path, want) in [(Cont::Versatiles, ra, &pa, set), (Cont::Pmtiles, rb, &pb, &other)] {
+							match res {
+								Err(e) => ctx.violation(&format!("{}: writer fails when another container of the same name is written next to it: {}", cont.name(), norm_msg(&format!("{e:#}"))), &format!("{e:#}"), case.clone()),
+								Ok(()) => match std::fs::read(path).map_err(|e| e.to_string()).and_then(|bytes| ct::independent_decode(cont, &ct::Written::Bytes(bytes))) {
+									Err(e) => ctx.violation(&format!("{}: file written next to another container of the same name does not follow the layout", cont.name()), &e, case.clone()),
+									Ok(d) => {
+										let expect: TileMap = want.iter().filter(|(_, v)| !v.is_empty()).map(|(k, v)| (*k, v.clone())).collect();
+										if d.tiles != expect {
+											ctx.violation(&format!("{}: independent decoder recovers another mapping from a file written next to another container of the same name", cont.name()), &format!("{} tiles decoded, {} written", d.tiles.len(), expect.len()), case.clone());
+										}
+									}
+								},
+							}
+						}
+					}
+				}
+				let _ = std::fs::remove_dir_all(&dir);
+			}
+		}
+	}
 	// 5. the target path already holds an earlier output
 	rewrite_existing(&ctx, &wpath);
 	ctx.extra("mbtiles_pool_tokens", json!(ct::POOL_TOKENS.load(std::sync::atomic::Ordering::Relaxed)));
